@@ -8,6 +8,15 @@ COMMON_NOTE = ("Trusted: Coq 8.16.1 kernel; the hand-written Gallina model (coq/
                "extraction (ExtrOcamlBasic only), ocaml/driver.ml, Rust harness, python generators. ")
 
 CHECKS = {
+ "C01": dict(
+  text="Coq theorems (Props/C01.v): for ARBITRARY block cipher and MAC functions with 16-byte outputs, the model of DataFrame::build_into returns exactly "
+       "the frame of the declarative LoRaWAN 1.0.x spec (Spec/L2Frame.v: LE fields, FCtrl bits by direction, A_i keystream with key by FPort, B0|msg CMAC with the "
+       "full 32-bit counter and direction) for every description the spec allows (any payload length up to the 255-byte PHY limit, proved by induction on blocks, no "
+       "enumeration), writes it at the front of the buffer leaving the tail untouched, and refuses FOpts>15 / FOpts+port 0 / missing key / short buffer with the documented "
+       "error; same for JoinRequest and JoinAccept (with/without CFList, AES-decrypt wrapping). The model is tied to the code by running model (instantiated with a Gallina "
+       "AES-128/CMAC proved against FIPS-197/RFC 4493 vectors) and implementation (device- and network-side RustCrypto variants) on the same generated descriptions.",
+  note=COMMON_NOTE + "RustCrypto aes/cmac are external code: modelled by Crypto/AES.v, CMAC.v and compared on random blocks. Theorems assume only the 16-byte output length of cipher and MAC.",
+  tech="machine-checked proof in Coq (builder model = declarative L2 spec, all inputs) + differential correspondence with an independent Gallina AES/CMAC", ref="6 C01"),
  "C15": dict(
   text="Coq theorems: every driver's LDRO decision and the bit programmed into the chip equal the airtime calculator's, and that "
        "decision is 'on' exactly when 2^SF*10^6 >= 16384*BW (exact arithmetic) for all SF 5..12 x all 10 bandwidths. The models are "
